@@ -194,6 +194,10 @@ def sx_meth(obj, name, *args, **kw):
     if isinstance(obj, TStr):
         return getattr(obj, name)(*args, **kw)
     if type(obj) in (str, bytes):
+        if name == "join" and args and isinstance(args[0], TStr):
+            if obj:
+                raise EngineLimit("join of the characters of a symbolic string with a separator")
+            return args[0]  # "".join(s) == s
         if name == "join" and args:
             items = args[0] if isinstance(args[0], (list, tuple)) else list(args[0])
             if any(isinstance(i, TStr) for i in items):
